@@ -299,9 +299,9 @@ Proof.
   apply (SInv_header s1 (lastKey s1) nr (nextLSN s1)); [lia | exact H1].
 Qed.
 
-Lemma st_insert_inv s name cols vals : SInv s -> SInv (fst (st_insert s name cols vals)).
+Lemma st_insert0_inv s name cols vals : SInv s -> SInv (fst (st_insert0 s name cols vals)).
 Proof.
-  intros H. unfold st_insert. destruct (is_sys_table name); [exact H|].
+  intros H. unfold st_insert0. destruct (is_sys_table name); [exact H|].
   destruct (bind _ _) as [[off bs]|e|]; cbn [fst]; try exact H.
   pose proof (bt_insert_inv s off bs H) as H1.
   destruct (bt_insert s off bs) as [s1 [[[k l] nr]|e|]]; cbn [fst] in *; try exact H1.
@@ -310,11 +310,21 @@ Proof.
   destruct (update_page_table s1 nr name) as [s2 [ws|e|]]; cbn [fst] in *; exact H2.
 Qed.
 
-Lemma st_update_inv s name rowid cols vals : SInv s -> SInv (fst (st_update s name rowid cols vals)).
+Lemma st_insert_inv s name cols vals : SInv s -> SInv (fst (st_insert s name cols vals)).
 Proof.
-  intros H. unfold st_update. destruct (is_sys_table name); [exact H|].
+  intros H. unfold st_insert. destruct (ins_bad_cols _ _ _ _); [exact H | apply st_insert0_inv; exact H].
+Qed.
+
+Lemma st_update0_inv s name rowid cols vals : SInv s -> SInv (fst (st_update0 s name rowid cols vals)).
+Proof.
+  intros H. unfold st_update0. destruct (is_sys_table name); [exact H|].
   repeat (break_match; cbn [fst]; try exact H).
   apply touch_store_inv; [reflexivity | exact H].
+Qed.
+
+Lemma st_update_inv s name rowid cols vals : SInv s -> SInv (fst (st_update s name rowid cols vals)).
+Proof.
+  intros H. unfold st_update. destruct (upd_bad_cols _ _ _); [exact H | apply st_update0_inv; exact H].
 Qed.
 
 Lemma st_delete_inv s name rowid : SInv s -> SInv (fst (st_delete s name rowid)).
